@@ -6,6 +6,7 @@ import TjdModel.Basic
 import TjdModel.Autojac.Typing
 import TjdModel.Autojac.Pipeline
 import TjdModel.Autojac.Prog
+import TjdModel.Autojac.Spec
 namespace Tjd.Driver
 open Tjd SExp
 
@@ -97,12 +98,12 @@ def parseProg (req : SExp) : Option (Prog Rat) := do
 
 /-- aggregators available to the model side of the autojac correspondence -/
 def parseAgg : List SExp → Option (Mat Rat → Except Err (Vec Rat))
-  | [atom "sum"] => some fun J => .ok (combine (ncols J) J (onesV J.length))
+  | [atom "sum"] => some sumAgg
   | [atom "mean"] => some fun J =>
       .ok (combine (ncols J) J (List.replicate J.length (1 / (J.length : Rat))))
   | [atom "const", w] => do
       let w ← ratList? w
-      pure fun J => if J.length ≠ w.length then .error Err.value else .ok (combine (ncols J) J w)
+      pure (constAgg w)
   | [atom "probe", w] => do
       -- non-linear, couples all columns through the Gramian:  Jᵀ (w ⊙ (1 + G·(1,2,3,...)))
       let w ← ratList? w
